@@ -31,7 +31,7 @@ EXPLANATION = (
     "equal to / below the capacity), returns OK with the decoded size and hands the library the caller's "
     "extents; a frame larger than the destination is an error; (9) a read that spans pages appends values, "
     "definition and repetition levels where the previous page stopped (shared with C02.7). "
-    "Decides these clauses, not that decoded values/levels equal the stored ones.")
+    "(10) what a decoding loop reads through a pointer cursor it steps over before its next iteration (R40: no path from a read through the cursor to the next iteration's read without a store to the cursor - a `continue` may skip an element that was not read, not one that was). Decides these clauses, not that decoded values/levels equal the stored ones.")
 
 PR = "src/reader/page_reader.c"
 PW = "src/writer/page_writer.c"
